@@ -112,7 +112,9 @@ class ThresholdOpenList:
         jump_thresholds = []
         total_votes = sum(votes.values())
         if self.jump_fraction is not None:
-            jump_thresholds.append(total_votes * self.jump_fraction)
+            jump_thresholds.append(
+                Fraction(total_votes) * Fraction(self.jump_fraction)
+            )
         if self.quota_function is not None:
             jump_thresholds.append(self.quota_function(total_votes, n_seats))
         if not jump_thresholds:
